@@ -26,7 +26,8 @@ use wow_blp::types::{BlpContent, BlpImage};
 
 const SIZES: &[(u32, u32)] = &[(1, 1), (1, 2), (2, 1), (3, 5), (7, 8), (16, 16), (17, 31), (64, 1), (1, 64), (255, 256), (512, 512), (300, 200)];
 /// further fixed sizes: small squares, non-square sizes whose sides share an octave (full chain even with the chain defect), texture-like 256x64
-const EXTRA_SIZES: &[(u32, u32)] = &[(2, 2), (4, 4), (8, 8), (5, 7), (12, 9), (33, 63), (100, 127), (256, 64), (8, 2), (5, 1)];
+// the last two need all 16 entries of the mipmap locator table (floor(log2(side)) == 15)
+const EXTRA_SIZES: &[(u32, u32)] = &[(32768, 1), (1, 40000), (2, 2), (4, 4), (8, 8), (5, 7), (12, 9), (33, 63), (100, 127), (256, 64), (8, 2), (5, 1)];
 const CONTENTS: &[&str] = &["transparent", "opaque", "le256", "gt256", "gradient"];
 const FILTERS3: &[&str] = &["nearest", "triangle", "lanczos3"];
 const FILTERS5: &[&str] = &["nearest", "triangle", "catmullrom", "gaussian", "lanczos3"];
